@@ -5,6 +5,7 @@ from spec import gsm as spec
 
 ID = 'C08'
 TARGETS = ['SmppVerif.Props.C08']
+THOROUGH_ROUNDS = 3
 RULE = ('both splitters x {auto, gsm0338, ucs2} x references {0,1,255,256,65535}: every length around 0, the single-part '
         'limit and 1..3 segment boundaries (-3..+3) over {GSM basic, GSM extension, BMP, astral} fillers with a '
         'two-unit character (extension / astral) at every offset -3..+2 of every boundary, long texts up to >255 parts, '
